@@ -342,12 +342,22 @@ def allowlist_collision(r, case):
 
 
 def option_value_with_marker(r, case):
-    """an option whose value looks like a marker of another provided option; a key given twice"""
+    """an option whose value looks like a marker (of a provided option, of a missing one, of itself) and that some path
+    of the document uses - the base path, a file, a partial folder; a key given twice"""
     doc = case["doc"]
     s = _settings(doc)
-    s["base_path"] = r.pick(["build/{objdir}", "{objdir}", "b/{objdir}/x"])
-    _opt(case, "objdir", r.pick(["{version}_objs", "{version}", "o{region}"]))
+    if case["mode"] == "partial" and r.chance(0.6):
+        s["partial_build_segments_folder"] = r.pick(["segments_{version}", "pb/{version}/o", "{objdir}/seg"])
+        s.setdefault("partial_scripts_folder", "ps")
+    if r.chance(0.6) or not gen.keys_in_doc(doc):
+        s["base_path"] = r.pick(["build/{objdir}", "{objdir}", "b/{objdir}/x"])
+    keys = sorted(gen.keys_in_doc(doc))
+    k = r.pick(keys)
     _opt(case, "version", r.pick(["us", "jp"]))
+    _opt(case, k, r.pick(["{version}_objs", "{version}", "o{region}", "{rev}", "{" + k + "}", "a{rev}b{version}"]))
+    for other in keys:
+        if other not in [p[0] for p in case["opts"]]:
+            _opt(case, other, r.pick(["x1", "y2"]))
     if r.chance(0.5):
         case["opts"] = [["version", "eu"]] + case["opts"]      # an earlier value that the later one replaces
     return True
@@ -502,7 +512,72 @@ def many_address_fields_variants(r, case):
     return True
 
 
-FEATURES = [dup_segment_names, class_follow_conditional, single_conditional, shared_subgroup, mark_in_subgroup, null_override,
+def gp_in_subgroup(r, case):
+    """gp_info naming a section the segment only has as a sub-group section (not in its lists): to be rejected"""
+    doc = case["doc"]
+    s = _settings(doc)
+    if "hardcoded_gp_value" in s:
+        return False
+    for g in doc["segments"]:
+        g.pop("gp_info", None)
+    seg = r.pick(doc["segments"])
+    a, n = _lists(doc, seg)
+    if not a + n:
+        return False
+    table = _subs(doc, seg)
+    sub = next((v[0] for k, v in table.items() if k in a + n and v and v[0] not in a + n), None)
+    if sub is None:
+        sub = r.pick([".sdata2", ".lit4", ".small"])
+        if sub in a + n:
+            return False
+        lead = r.pick(a + n)
+        table[lead] = list(table.get(lead, [])) + [sub]
+        seg["sections_subgroups"] = table
+    seg["gp_info"] = {"section": sub, "offset": 0x7FF0}
+    return True
+
+
+def assignment_named_like_generated(r, case):
+    """a user symbol assignment (and a required symbol) spelled exactly like a symbol slinky generates"""
+    doc = case["doc"]
+    st = (doc.get("settings") or {}).get("linker_symbols_style", "splat")
+    seg = r.pick(doc["segments"])
+    n = seg["name"]
+    names = ["%s_ROM_END" % n, "%s_VRAM" % n, "%s_ROM_START" % n, "%s_TEXT_START" % n, "%s_VRAM_END" % n] if st != "makerom" else \
+        ["_%sSegmentRomEnd" % n, "_%sSegmentStart" % n, "_%sSegmentRomStart" % n, "_%sSegmentTextStart" % n]
+    doc.setdefault("symbol_assignments", [])
+    doc["symbol_assignments"].insert(r.below(len(doc["symbol_assignments"]) + 1), {"name": r.pick(names), "value": r.pick(["0x00100000", "0x10"])})
+    if r.chance(0.4):
+        doc["symbol_assignments"].append({"name": "rom_size_u", "value": r.pick(names)})
+    if r.chance(0.3):
+        doc.setdefault("required_symbols", []).append({"name": r.pick(names)})
+    return True
+
+
+def cyclic_unused_classes(r, case):
+    """classes that follow each other in a cycle and have no emitted member, followed by a class that is used"""
+    doc = case["doc"]
+    if not _multi(doc):
+        return False
+    cl = doc.setdefault("vram_classes", [])
+    names = {c["name"] for c in cl}
+    if {"cyA", "cyB", "cyUse"} & names:
+        return False
+    k = r.below(3)
+    if k == 0:
+        cl += [{"name": "cyA", "follows_classes": ["cyB"]}, {"name": "cyB", "follows_classes": ["cyA"]}]
+    elif k == 1:
+        cl += [{"name": "cyA", "follows_classes": ["cyA"]}, {"name": "cyB", "fixed_vram": 0x80900000}]
+    else:
+        cl += [{"name": "cyA", "follows_classes": ["cyB"]}, {"name": "cyB", "follows_classes": ["cyA", "cyB"]}]
+    cl.append({"name": "cyUse", "follows_classes": r.pick([["cyA"], ["cyB", "cyA"], ["cyA", "cyB"]])})
+    if r.chance(0.6):
+        doc["segments"].append({"name": "cy_off", "vram_class": r.pick(["cyA", "cyB"]), "files": [{"path": "cy0.o"}], "include_if_any": [["version", "zz"]]})
+    doc["segments"].append({"name": "cy_on", "vram_class": "cyUse", "files": [{"path": "cy1.o"}]})
+    return True
+
+
+FEATURES = [gp_in_subgroup, assignment_named_like_generated, cyclic_unused_classes, dup_segment_names, class_follow_conditional, single_conditional, shared_subgroup, mark_in_subgroup, null_override,
             foreign_section_destination, keep_list_and_order, class_keep_segment_false, dup_toplevel, gp_after_alignment,
             allowlist_collision, option_value_with_marker, excluded_then_aligned, subalign_vs_section_align, all_files_excluded,
             pad_under_keep, partial_folder_with_marker, alloc_holds_noload_names, empty_alloc_with_noload, excluded_first_class_member,
